@@ -10,6 +10,7 @@ import (
 	"fmt"
 	"sort"
 	"strings"
+	"sync"
 	"time"
 
 	sdk "github.com/cosmos/cosmos-sdk/types"
@@ -110,6 +111,31 @@ type Result struct {
 	Extra           map[string]float64 `json:"extra,omitempty"`
 	// Conformance: divergences between emulated and real-block replays of this job's op sequences (harness errors)
 	Conformance []string `json:"conformance,omitempty"`
+}
+
+// Progress is stamped before every transition; a worker's watchdog uses it to turn an operation that does not
+// terminate into a harness error instead of a hang.
+var (
+	progressMu   sync.Mutex
+	progressAt   time.Time
+	progressPath []string
+)
+
+func stamp(path []string, op string) {
+	progressMu.Lock()
+	progressAt = time.Now()
+	progressPath = append(append([]string(nil), path...), op)
+	progressMu.Unlock()
+}
+
+// Stalled reports how long the current transition has been running and which one it is.
+func Stalled() (time.Duration, []string) {
+	progressMu.Lock()
+	defer progressMu.Unlock()
+	if progressAt.IsZero() {
+		return 0, nil
+	}
+	return time.Since(progressAt), progressPath
 }
 
 type explorer struct {
@@ -268,6 +294,7 @@ func (e *explorer) dfs(s *State, remaining int, shardAcc int) {
 			continue
 		}
 		c := Child(s, op.Name)
+		stamp(s.Path, op.Name)
 		op.Run(c)
 		e.res.Transitions++
 		if c.Accepted {
